@@ -107,5 +107,19 @@ CLAIMS["C02"] = {
     "technique": "taint/provenance of template holes + delimiter-effect abstract interpretation of emitters",
     "ref": "DESIGN.md section 5 C02",
 }
+CLAIMS["C09"] = {
+    "text": "Decides the relational part of the property that is visible in the code: with the PYTHON convention the conversion "
+            "returns its argument on every path; the flag reaches nothing but the convention argument of the conversion "
+            "(forward slice over generator, helpers and file writer), so nothing else in the stubs can change; at each of "
+            "the 10 declaration sites (class, attribute, function, property, parameter, enum member, three module-path "
+            "headers, placeholder class) the annotation is present on exactly the paths where 'converted == original' is "
+            "false, carries the original and is compared before escaping; all emission sites of one role (class name, type "
+            "variable, function, parameter, result) use one conversion pipeline and classes use the class mode (today four "
+            "reference sites do not: listed known findings with a runtime witness). The string algorithm of the conversion "
+            "itself (UpperCamel/lowerCamel for all identifier strings) is a function over arbitrary strings and is NOT decided.",
+    "note": TRUST,
+    "technique": "forward slice of the flag + per-path annotation/fact correspondence + pipeline comparison across sites",
+    "ref": "DESIGN.md section 5 C09",
+}
 
 NOT_APPLICABLE = {}
